@@ -8,7 +8,7 @@ def siteJ (s : Site) : Json := Json.arr #[ofInt s.1, ofInt s.2]
 def ositeJ : Option Site → Json
   | none => Json.null
   | some s => siteJ s
-def bondJ (b : OBond) : Json := Json.arr #[ositeJ b.1, ositeJ b.2]
+def bondJ (b : Bond) : Json := Json.arr #[siteJ b.1, siteJ b.2]
 def indexJ : Index → Json
   | .site s => siteJ s
   | .lab n => ofInt n
@@ -62,10 +62,7 @@ def parseGeom (j : Json) : R (Except String Geom) := do
     | .error e => pure (.error e.toString)
   | _ => throw s!"unknown geometry class {cls}"
 
-def bondsJ (G : Geom) (dirn : Option String) (rev : Bool) : Json :=
-  match G.bonds dirn rev with
-  | .ok l => ofList bondJ l
-  | .error e => obj [("err", e)]
+def bondsJ (G : Geom) (dirn : Option String) (rev : Bool) : Json := ofList bondJ (G.bonds dirn rev)
 
 def rangeI (a b : Int) : List Int := (List.range (b - a).toNat).map fun (k : Nat) => a + k
 
@@ -112,8 +109,8 @@ def geomBatch (j : Json) : R Json := do
 def rectJ (r : Except PatErr Rect) : Json :=
   match r with
   | .ok r => obj [("ok", obj [("dims", ofNats [r.Nx, r.Ny]), ("sites", ofList siteJ r.sites),
-                               ("h", ofList (fun b => bondJ (liftBond b)) r.bondsH),
-                               ("v", ofList (fun b => bondJ (liftBond b)) r.bondsV)])]
+                               ("h", ofList (fun b => bondJ b) r.bondsH),
+                               ("v", ofList (fun b => bondJ b) r.bondsV)])]
   | .error e => obj [("err", e.toString)]
 
 /-- {op:"pattern_batch", patterns:[pattern,…]} | {op:"pattern_batch", dicts:[[[x,y,l],…],…]} -/
